@@ -19,10 +19,19 @@ def unit_ctx(uid, zero=1):
     return dm.layout(zero, dm.seq_block(0, 40, uid % 2), dm.seq_block(0, 40, 1), dm.seq_block(0, 40, (uid * 7) % 100), dm.seq_block(0, 40, 3))
 
 
-def make_units(cfg):
+def make_units(cfg, omit=()):
+    """omit: tables every unit leaves to ModbusSlaveContext's own default (a private, zeroed block of 65536 cells per table and
+    per context - the model cfg says exactly that)"""
+    def one(u):
+        d = unit_ctx(u)
+        if omit:
+            for t in omit:
+                d["blocks"][d["map"][t]] = dm.seq_block(0, 65536)
+            d["omit"] = list(omit)
+        return d
     if cfg["single"]:
-        return [[0, unit_ctx(0)]]
-    return [[u, unit_ctx(u)] for u in cfg["hosted"]]
+        return [[0, one(0)]]
+    return [[u, one(u)] for u in cfg["hosted"]]
 
 
 def rand_request(rng, allow_other=True):
@@ -98,6 +107,12 @@ class Case:
 
 
 def run_case(case, probe=None):
+    if D.POISONED:
+        # a handler of this process hung in an earlier history (reported there): what is stuck with it (a lock, a singleton) would make
+        # every later history wait for the watchdog as well; they are not run
+        return {"id": case.id, "mode": case.mode, "fe": case.fe, "kind": case.kind,
+                "cfg": {"single": case.cfg["single"], "hosted": case.cfg["hosted"], "broadcast": case.cfg["broadcast"], "ignore": case.cfg["ignore"]},
+                "units": case.units, "sent": [[] for _ in case.sent], "streams": [[] for _ in case.streams], "ev": [], "skipped": "after a hang"}
     D.reset_singletons()
     sc, blocks = D.build_server_context(case.cfg, case.units)
     fe = D.FRONTENDS[case.fe](case.kind, sc, case.cfg)
@@ -307,7 +322,8 @@ def gen_c10(tier, rng):
                     for uid in sample:
                         fe, kind = pairs[k % len(pairs)]
                         cfg = {"single": single, "hosted": hosted, "broadcast": bc if D.FRONTENDS[fe].supports_broadcast else 0, "ignore": ign}
-                        units = make_units(cfg)
+                        # every fifth case: the units leave the written tables to the context's default blocks
+                        units = make_units(cfg, omit=("c", "h") if k % 5 == 4 else ())
                         case = Case("u%d" % k, "strict", fe, kind, cfg, units)
                         reqs = [(uid, 11, dm.pdu_w1(6, 3, 1000 + uid)), (uid, 12, dm.pdu_read(3, 3, 1)),
                                 (uid, 13, dm.pdu_wn(15, 1, 3, 1, [5]))]
